@@ -266,7 +266,13 @@ func cmdCheck(args []string) int {
 			}
 			if o.Kind == engine.KindCover {
 				nCover++
-				if o.Status != "covered" {
+				harnessFailed := false
+				for _, x := range r.Obls {
+					if x.Status == "failed" {
+						harnessFailed = true
+					}
+				}
+				if o.Status != "covered" && !harnessFailed {
 					path := writeReplay(*replayDir, *prop, o.Name, "vacuity guard failed: "+o.Msg+" status="+o.Status, o)
 					violLines = append(violLines, fmt.Sprintf("VIOLATION property=%s replay=%s obligation=%s vacuous-or-undecided-cover no-failing-input-found", *prop, path, o.Name))
 					nViol++
